@@ -192,12 +192,13 @@ impl<const N: u32> PxE1<{ N }> {
                 }
                 frac &= Self::mask();
 
-                exp <<= 29 - reg_len;
+                // (a 30-bit regime leaves no room for the exponent bit)
+                exp = if reg_len <= 29 { exp << (29 - reg_len) } else { 0 };
                 let mut u_z = Self::pack_to_ui(regime, exp as u32, frac);
 
                 //n+1 frac bit is 1. Need to check if another bit is 1 too if not round to even
                 if bit_n_plus_one {
-                    if ((0x_FFFF_FFFF_FFFF_FFFF_u64 >> N) & frac64) != 0 {
+                    if ((0x_FFFF_FFFF_FFFF_FFFF_u64 >> (N + 1)) & frac64) != 0 {
                         bits_more = true;
                     }
                     u_z += (((u_z >> (32 - N)) & 1) | (bits_more as u32)) << (32 - N);
@@ -289,7 +290,7 @@ impl<const N: u32> PxE1<{ N }> {
 
                 //regime length is smaller than length of posit
                 if reg_len < N {
-                    if reg_len <= (N - 4) {
+                    if reg_len + 4 <= N {
                         bit_n_plus_one = (0x8000_0000_u64 << (32 - N)) & frac64 != 0;
                         //exp <<= (28-reg_len);
                     } else if reg_len != N - 2 {
@@ -315,12 +316,13 @@ impl<const N: u32> PxE1<{ N }> {
                 }
                 frac &= Self::mask();
 
-                exp <<= 29 - reg_len;
+                // (a 30-bit regime leaves no room for the exponent bit)
+                exp = if reg_len <= 29 { exp << (29 - reg_len) } else { 0 };
                 let mut u_z = Self::pack_to_ui(regime, exp as u32, frac);
 
                 //n+1 frac bit is 1. Need to check if another bit is 1 too if not round to even
                 if bit_n_plus_one {
-                    if ((0x_FFFF_FFFF_FFFF_FFFF_u64 >> N) & frac64) != 0 {
+                    if ((0x_FFFF_FFFF_FFFF_FFFF_u64 >> (N + 1)) & frac64) != 0 {
                         bits_more = true;
                     }
                     u_z += (((u_z >> (32 - N)) & 1) | (bits_more as u32)) << (32 - N);
@@ -425,7 +427,8 @@ impl<const N: u32> ops::Mul for PxE1<{ N }> {
                     0
                 };
 
-                exp <<= 29 - reg_len;
+                // (a 30-bit regime leaves no room for the exponent bit)
+                exp = if reg_len <= 29 { exp << (29 - reg_len) } else { 0 };
                 let mut u_z = Self::pack_to_ui(regime, exp as u32, frac);
 
                 if bit_n_plus_one {
@@ -535,7 +538,8 @@ impl<const N: u32> ops::Div for PxE1<{ N }> {
                     frac = 0;
                 }
 
-                exp <<= 29 - reg_len;
+                // (a 30-bit regime leaves no room for the exponent bit)
+                exp = if reg_len <= 29 { exp << (29 - reg_len) } else { 0 };
                 let mut u_z = Self::pack_to_ui(regime, exp as u32, frac);
 
                 if bit_n_plus_one {
